@@ -455,6 +455,12 @@ def generate():
         tu = TU(cpp, mut)
         sk = Skel(tu, body, cls)
         term = sk.stmts(body)
+        # the other ASTConsumer callbacks of the class run before HandleTranslationUnit
+        for cb in ('HandleTopLevelDecl', 'Initialize', 'HandleTagDeclDefinition', 'HandleInlineFunctionDefinition'):
+            bodies = tu.defs.get((cls, cb), [])
+            if bodies:
+                rw = any(tu.text_may_rewrite(b, cls=cls) for b in bodies)
+                term = f'(SSeq (SEffect {"true" if rw else "false"}) {term})'
         stats['opaque_max'] = max(stats['opaque_max'], sk.nopaque)
         sk_rows.append('(%s, %d, %s)' % (coq_string(name), sk.nopaque, term))
     out.append('Definition registrations : list (string * string * bool) := ' + coq_list(rows) + '.')
